@@ -4,7 +4,7 @@ from vlib import g1check
 PROPERTY = "C01"
 LEVEL = "exploration"
 RULE = ("(Module-level coroutine code - top-level await - evaluated with a dict and with a bare item-access namespace, observed inside __aenter__, in the body, inside __aexit__ and after: exact, no warning.) (First use near the recursion limit: in a process of its own per depth, the first extraction is made 12..56 frames under the limit; afterwards an ordinary extraction of a frame that keeps a never-entered manager's exit method in a local is exact, with varname and start_line, and warns about nothing.) Also G2 await / yield-from / async-generator chains in which some frames hold managers open (coroutine, generator and async-generator frames reached through other frames: await, asend, __anext__, async for, yield from), every frame of the extracted stack listing exactly its own open managers (trickery mode). "
-        "Also a leg over managers the harness cannot instrument: linear nests (1-4 with / async with statements, 1-3 items; a third of the items enter the manager object of an earlier item again - re-entrant / reusable managers, the same object active in two blocks of one frame - and async items may be managers whose __aexit__ suspends, giving observation points with an exiting context) of standard-library managers (and, in trickery mode, a MagicMock used as a manager: its exit callable is no bound method, so its context may have obj None, nothing else may suffer), seven kinds of them implemented in C (threading.Lock / RLock, StringIO, BytesIO, memoryview, decimal.localcontext, file objects), the others in Python (nullcontext, suppress, closing, ExitStack, Condition, Semaphore, redirect_stdout, AsyncExitStack, aclosing), observed at every suspension point in trickery mode against the statically known active set (identity, order, is_async, varname). "
+        "Also a leg over managers the harness cannot instrument: linear nests (1-4 with / async with statements, 1-3 items; a third of the items enter the manager object of an earlier item again - re-entrant / reusable managers, the same object active in two blocks of one frame - and async items may be managers whose __aexit__ suspends, giving observation points with an exiting context) of standard-library managers (and, in trickery mode, a MagicMock used as a manager, and a type whose __exit__ is a callable object whose __getattr__ raises RuntimeError: the exit callable is no bound method, so its context may have obj None, nothing else may suffer), seven kinds of them implemented in C (threading.Lock / RLock, StringIO, BytesIO, memoryview, decimal.localcontext, file objects), the others in Python (nullcontext, suppress, closing, ExitStack, Condition, Semaphore, redirect_stdout, AsyncExitStack, aclosing), observed at every suspension point in trickery mode against the statically known active set (identity, order, is_async, varname). "
         "Programs (a quarter of them preceded by ~1200 / ~9600 / ~18000 instructions of straight-line code, so that jump arguments and exception-table entries need two and three bytes): Hypothesis-generated with-programs (G1: generator / coroutine / async generator bodies over "
         "with / async with (1-4 items, 16 target forms, 3 layouts), try/except/else/finally, for, while, if, match, "
         "return/return-const/return-value/break/continue/raise, swallowing and raising managers, managers whose "
